@@ -28,7 +28,7 @@ func init() {
 			return 900
 		},
 		Batch: func(t string) int { return 30 },
-		Floors: []string{"sink_faults", "sink_exhaustive_files", "sink_mode_error", "sink_mode_short", "sink_mode_transient", "truncations", "truncation_exhaustive_files", "readat_faults", "readat_mode_error", "readat_mode_short_error", "readat_mode_early_eof", "readat_mode_persistent_short_eof",
+		Floors: []string{"sink_faults", "sink_exhaustive_files", "sink_mode_error", "sink_mode_short", "sink_mode_transient", "truncations", "truncation_exhaustive_files", "readat_faults", "readat_mode_error", "readat_mode_short_error", "readat_mode_early_eof", "readat_mode_persistent_short_eof", "copy_source_faults",
 			"scenario_plain", "scenario_nobuf", "scenario_file_pages", "scenario_deferred_bloom", "scenario_sorting_writer", "scenario_concurrent_rowgroups", "scenario_copy_rowgroup", "scenario_chunk_pages"},
 		Rule: "three fault families over 8 writer scenarios (default, WriteBufferSize 0/1, file- and chunk-backed page buffers, deferred bloom filters, SortingWriter, concurrent row groups, WriteRowGroup copy path): " +
 			"(a) the sink fails at byte offset k (error / short write with error / one transient failure): EVERY offset for files <= 4 KiB, else every write-call boundary +-1 plus PRNG offsets; oracle: some Write/Flush/Close returns an error, no panic, and a nil Close means the sink holds exactly the clean bytes; " +
@@ -355,6 +355,63 @@ func runC14(c *Ctx) {
 			c.Fail("harness.open", nil, "%v", err)
 			return
 		}
+	}
+	// copy scenario, source side: the faults hit the SOURCE file while WriteRowGroup copies its row groups
+	// into a healthy sink. Either some call reports an error or the output holds exactly the source rows.
+	if scenario == "copy_rowgroup" && family == "readat" {
+		sdata, _ := writeTyped(te, rows, []wop{{Lo: 0, Hi: n}}, []parquet.WriterOption{parquet.PageBufferSize(256), parquet.MaxRowsPerRowGroup(int64(n/2 + 1))})
+		copyThrough := func(ra io.ReaderAt) (out []byte, err error) {
+			f, err := parquet.OpenFile(ra, int64(len(sdata)))
+			if err != nil {
+				return nil, err
+			}
+			var sink bytes.Buffer
+			w := te.ops.NewWriter(&sink, parquet.PageBufferSize(256))
+			for _, rg := range f.RowGroups() {
+				if _, err := w.WriteRowGroup(rg); err != nil {
+					return nil, err
+				}
+			}
+			if err := w.Close(); err != nil {
+				return nil, err
+			}
+			return sink.Bytes(), nil
+		}
+		cnt := &faultReaderAt{data: sdata, failAt: -1}
+		if _, err := copyThrough(cnt); err != nil {
+			c.Fail("harness.clean_copy", keys, "%v", err)
+			return
+		}
+		calls := cnt.calls
+		c.Obs("scenario_copy_rowgroup_source_faults", 1)
+		for i := 0; i < calls && i < 80; i++ {
+			for mode := 0; mode < 5; mode++ {
+				mname := []string{"error", "short_error", "early_eof", "early_eof", "persistent_short_eof"}[mode]
+				k2 := map[string]any{"scenario": "copy_rowgroup_source", "family": family, "mode": mname}
+				var out []byte
+				var err error
+				if c.guard("c14.panic", k2, func() { out, err = copyThrough(&faultReaderAt{data: sdata, failAt: i, mode: mode}) }) {
+					return
+				}
+				c.Obs("copy_source_faults", 1)
+				if err != nil {
+					continue
+				}
+				saved := c14FileOpts
+				c14FileOpts = nil
+				got, rerr := c14ReadAll(te, bytes.NewReader(out), int64(len(out)))
+				c14FileOpts = saved
+				if rerr != nil {
+					c.Fail("c14.source_fault_absorbed", k2, "source ReadAt call #%d of %d returned %s, WriteRowGroup and Close reported no error, and the file written cannot be read: %v", i, calls, mname, rerr)
+					return
+				}
+				if ok, diff := eqRows(rows, got); !ok {
+					c.Fail("c14.source_fault_absorbed", k2, "source ReadAt call #%d of %d returned %s, WriteRowGroup and Close reported no error, and the file written holds other rows: %s", i, calls, mname, diff)
+					return
+				}
+			}
+		}
+		return
 	}
 	// clean run
 	clean := &faultSink{failAt: -1}
